@@ -216,6 +216,17 @@ theorem only_receivership_and_flashloan_skip :
     occursBefore borrow (· == .acctFlag .inReceivership) isOp = true ∧
     re_check_init_health = [.acctFlag .inFlashloan] := by decide
 
+/-- the check is unconditional in borrow, flash-loan end and liquidation, and sits under exactly one
+    condition (the receivership test) in the four withdraw handlers -/
+theorem health_check_conditions :
+    condAt borrow borrow_cond (· == .healthInit) = some 0 ∧
+    condAt end_flashloan end_flashloan_cond (· == .healthInit) = some 0 ∧
+    condAt liquidate liquidate_cond (· == .healthInit) = some 0 ∧
+    condAt withdraw withdraw_cond (· == .healthInit) = some 1 ∧
+    condAt kamino_withdraw kamino_withdraw_cond (· == .healthInit) = some 1 ∧
+    condAt drift_withdraw drift_withdraw_cond (· == .healthInit) = some 1 ∧
+    condAt solend_withdraw solend_withdraw_cond (· == .healthInit) = some 1 := by decide
+
 /-- flash loans end with the same check (C11) and liquidation checks the liquidator -/
 theorem liquidator_and_flashloan_checked :
     end_flashloan.getLast? = some .healthInit ∧ liquidate.getLast? = some .healthInit := by decide
